@@ -328,6 +328,8 @@ class ANIS(Command):
         super(ANIS, self).__init__(shx, spline)
         p, self.atoms = self._parse_line(spline)
         self.over_all = True
+        # ANIS without a number has no attribute n, also after set() on an object that had one:
+        self.__dict__.pop('n', None)
         if len(p) > 0:
             self.over_all = False
             self.n = p[0]
@@ -346,6 +348,7 @@ class MPLA(Command):
         """
         super(MPLA, self).__init__(shx, spline)
         p, self.atoms = self._parse_line(spline, intnums=True)
+        self.na = None
         if len(p) > 0:
             self.na = p[0]
 
@@ -746,6 +749,7 @@ class PRIG(Command):
         """
         super(PRIG, self).__init__(shx, spline)
         params, _ = self._parse_line(spline)
+        self.p = None
         if len(params) > 0:
             self.p = params[0]
 
